@@ -62,12 +62,31 @@ def run(ctx):
                           f"after a kill at {c['name']} the sidecar on disk marks chunks that are not in the file: {r['unsound'][:3]}", {"case": c, "result": r})
         if r.get("note"):
             ctx.oblige(f"run:{c['name']}", False, r["note"][:200])
+    # several flushers of one sidecar at once (ticker, finalizeFile, the signal handler's FlushAllFlushers) while chunks are marked;
+    # the file on disk is loaded over and over - each observation is what a kill at that instant would leave
+    storms = [{"mode": "flushstorm", "name": f"storm-{fl}f-{ch}c", "chunks": ch, "flushers": fl, "millis": 400 if ctx.tier == "quick" else 1500, "mark_gap_us": gap}
+              for fl, ch, gap in ([(1, 200, 50), (2, 400, 100), (3, 2000, 20), (4, 64, 500)] + ([(rng.range(2, 6), rng.range(50, 3000), rng.range(0, 300)) for _ in range(6)] if ctx.tier == "thorough" else []))]
+    rcs, sres = G.run_cases(ctx, exe, "flushstorm", storms, timeout=300)
+    ctx.oblige("harness:flushstorm", rcs == 0 and len(sres) == len(storms), ctx.harness_stderr[-300:])
+    observations = 0
+    for c, r in zip(storms, sres):
+        observations += r.get("valid", 0)
+        rep = {"case": c, "result": r}
+        if r.get("note"):
+            ctx.oblige(f"run:{c['name']}", False, r["note"][:200])
+        if r.get("invalid"):
+            ctx.violation("C05:no-valid-version-on-disk", f"with {c['flushers']} concurrent flushers the resume metadata on disk was at some instant neither absent nor a valid version "
+                          f"({r['invalid'][0]}): an update was not atomic, the previous valid version is gone", rep)
+        if r.get("unsound"):
+            ctx.violation("C05:unsound-sidecar:concurrent-flushers", f"with {c['flushers']} concurrent flushers the metadata on disk claimed a chunk that was not yet written", rep)
+        if r.get("shrunk"):
+            ctx.violation("C05:version-went-back", f"with {c['flushers']} concurrent flushers a later version on disk claims fewer chunks than an earlier one", rep)
     bigs = G2.big_cases(rng, ctx.tier == "thorough")
     rcb, bres = G2.run_xfer(ctx, exe, "big", bigs, timeout=600)
     ctx.oblige("harness:big", rcb == 0 and len(bres) == len(bigs), ctx.harness_stderr[-300:])
     nbig = G2.judge_big(ctx, "C05", bigs, bres)
     ctx.coverage.update({
-        "big_sparse_files_above_4GiB": nbig,
+        "big_sparse_files_above_4GiB": nbig, "flush_storms": len(storms), "flush_storm_valid_observations": observations,
         "evaluations": len(cases) + len(wl), "distinct_nontrivial": with_marks,
         "rule": "for each workload (fixed 3 + seeded), the real transfer over netsim runs in a child process that SIGKILLs itself at the k-th hit of each of 6 hook points "
                 "(before write, after write, after mark, between temp write and rename, after rename, before finalize) for every k (thorough) or a stride (quick), with and without "
